@@ -29,9 +29,10 @@ func nrules(p *load.Program, f *fsm, s *oblig.Set) {
 	sp := p.SPkg("lexer")
 	lexT := sp.Pkg.Scope().Lookup("Lexer").Type()
 	lst := lexT.Underlying().(*types.Struct)
-	fld := map[string]int{}
-	for i := 0; i < lst.NumFields(); i++ {
-		fld[lst.Field(i).Name()] = i
+	fld := LexerRoles(p)
+	knownField := map[int]bool{}
+	for _, i := range fld {
+		knownField[i] = true
 	}
 	for _, n := range []string{"input", "from", "to", "Token", "Err", "state", "eof"} {
 		if _, ok := fld[n]; !ok {
@@ -87,9 +88,7 @@ func nrules(p *load.Program, f *fsm, s *oblig.Set) {
 		// any further state the scanner keeps is unknown: what it emits for a text
 		// must not depend on it
 		for i := 0; i < lst.NumFields(); i++ {
-			switch lst.Field(i).Name() {
-			case "input", "from", "to", "state", "eof", "Err", "Token", "rdr":
-			default:
+			if !knownField[i] {
 				if b, ok := lst.Field(i).Type().Underlying().(*types.Basic); ok {
 					lf[i] = absint.NewVar("LEX."+lst.Field(i).Name(), b)
 					extraFields = append(extraFields, lst.Field(i).Name())
@@ -246,7 +245,7 @@ func nrules(p *load.Program, f *fsm, s *oblig.Set) {
 			if oc.lex != nil {
 				for i := 0; i < lst.NumFields(); i++ {
 					_, isBasic := lst.Field(i).Type().Underlying().(*types.Basic)
-					if v := absint.Key(oc.lex.F[i]); isBasic && isExtraLexField(lst.Field(i).Name()) && v != "LEX."+lst.Field(i).Name() {
+					if v := absint.Key(oc.lex.F[i]); isBasic && !knownField[i] && v != "LEX."+lst.Field(i).Name() {
 						dep = append(dep, "field "+lst.Field(i).Name()+" := "+v)
 					}
 				}
@@ -569,13 +568,106 @@ func tokenRecordRule(p *load.Program, s *oblig.Set) {
 	}
 }
 
-func isExtraLexField(n string) bool {
-	switch n {
-	case "input", "from", "to", "state", "eof", "Err", "Token", "rdr":
-		return false
+// LexerRoles finds the fields of lexer.Lexer by what they hold, whatever they
+// are called: the text (string), the rune reader (strings.Reader), the last
+// token (a struct of package token), the error, the state function, the end
+// flag (bool), and the two ints of the span -- told apart by the slice
+// expression of Next that cuts the token text out of the input, text[from:to].
+func LexerRoles(p *load.Program) map[string]int {
+	fld := map[string]int{}
+	sp := p.SPkg("lexer")
+	if sp == nil || sp.Pkg.Scope().Lookup("Lexer") == nil {
+		return fld
 	}
-	return true
+	lexT := sp.Pkg.Scope().Lookup("Lexer").Type()
+	lst, ok := lexT.Underlying().(*types.Struct)
+	if !ok {
+		return fld
+	}
+	var ints []int
+	for i := 0; i < lst.NumFields(); i++ {
+		t := lst.Field(i).Type()
+		role := ""
+		switch u := t.Underlying().(type) {
+		case *types.Basic:
+			switch {
+			case u.Kind() == types.String:
+				role = "input"
+			case u.Kind() == types.Bool:
+				role = "eof"
+			case u.Kind() == types.Int:
+				ints = append(ints, i)
+			}
+		case *types.Interface:
+			if t.String() == "error" {
+				role = "Err"
+			}
+		case *types.Signature:
+			role = "state"
+		case *types.Struct:
+			if n, ok := t.(*types.Named); ok && n.Obj().Pkg() != nil {
+				switch {
+				case n.Obj().Pkg().Path() == "strings":
+					role = "rdr"
+				case strings.HasSuffix(n.Obj().Pkg().Path(), "types/token"):
+					role = "Token"
+				}
+			}
+		}
+		if role != "" {
+			if _, dup := fld[role]; !dup {
+				fld[role] = i
+			}
+		}
+	}
+	// from / to: the bounds of the slice of the text in Next
+	if next := p.Method("lexer", "Lexer", "Next"); next != nil && len(ints) >= 2 {
+		fieldOf := func(v ssa.Value) int {
+			if ld, ok := v.(*ssa.UnOp); ok {
+				if fa, ok := ld.X.(*ssa.FieldAddr); ok {
+					return fa.Field
+				}
+			}
+			return -1
+		}
+		var scan func(fn *ssa.Function)
+		scan = func(fn *ssa.Function) {
+			for _, b := range fn.Blocks {
+				for _, ins := range b.Instrs {
+					if sl, ok := ins.(*ssa.Slice); ok && sl.Low != nil && sl.High != nil {
+						if in, isIn := fld["input"]; isIn && fieldOf(sl.X) == in {
+							if lo, hi := fieldOf(sl.Low), fieldOf(sl.High); lo >= 0 && hi >= 0 && lo != hi {
+								if _, dup := fld["from"]; !dup {
+									fld["from"], fld["to"] = lo, hi
+								}
+							}
+						}
+					}
+					// a helper Next was split into
+					if ci, ok := ins.(ssa.CallInstruction); ok {
+						if c := ci.Common().StaticCallee(); c != nil && c.Pkg == fn.Pkg && c != fn && c.Blocks != nil && len(seenScan) < 20 && !seenScan[c] {
+							seenScan[c] = true
+							scan(c)
+						}
+					}
+				}
+			}
+		}
+		seenScan = map[*ssa.Function]bool{next: true}
+		scan(next)
+	}
+	if _, ok := fld["from"]; !ok {
+		// fall back on the names
+		for _, i := range ints {
+			if n := lst.Field(i).Name(); n == "from" || n == "to" {
+				fld[n] = i
+			}
+		}
+	}
+	return fld
 }
+
+var seenScan map[*ssa.Function]bool
 
 // callsHelper: does fn call a function of its own package with this name?
 func callsHelper(fn *ssa.Function, name string) bool {
